@@ -236,7 +236,12 @@ def check_equal_many(ctx, pairs, pathcond=None, timeout_s=60, want_smt2=False):
     nontrivial = 0
     ncomp = 0
     seen = set()
+    from .core import Qx
     for lhs, rhs in pairs:
+        if isinstance(lhs, Qx) or isinstance(rhs, Qx):
+            # quotients: decided by cross-multiplication (denominators are assumed non-zero)
+            ql, qr = Qx.lift(lhs, ctx), Qx.lift(rhs, ctx)
+            lhs, rhs = ql.num * qr.den, qr.num * ql.den
         lhs = Sx.const(lhs, ctx)
         rhs = Sx.const(rhs, ctx)
         if lhs is rhs:
